@@ -1,7 +1,7 @@
 #!/bin/bash
 # usage: probe.sh <crate> <slot> <harness> [mem_gb] [timeout_s]   -> log in /verif/logs/probe-<harness>.log
 crate=$1; slot=$2; h=$3; mem=${4:-12}; to=${5:-300}
-cd /verif/kani/$crate
+cd /verif/kani/$crate; [ -f deasync.list ] && python3 /verif/gen/deasync.py gen $(cat deasync.list)
 export CARGO_NET_OFFLINE=true
 ( ulimit -v $((mem*1024*1024)); /usr/bin/time -f "WALL %e s MAXRSS %M KB" timeout -k 5 $to cargo kani --target-dir /verif/target/$crate-$slot -Z unstable-options -Z stubbing --no-memory-safety-checks --no-assertion-reach-checks --harness $h --cbmc-args --unwindset memcmp.0:18 --max-field-sensitivity-array-size 1024 ) > /verif/logs/probe-$h.log 2>&1
 grep -E "^Runtime Symex|VCC|^VERIFICATION|out of memory|Failed Checks|WALL|cover properties|of .* failed|^error" /verif/logs/probe-$h.log | head -12
